@@ -2,6 +2,7 @@ package memutilchk
 
 import (
 	"bytes"
+	"flag"
 	"fmt"
 	"math"
 	"testing"
@@ -42,7 +43,8 @@ const (
 	c20Mid        = "straddle-mid-unit"
 	c20AtUnit     = "straddle-at-unit-boundary"
 	c20Later      = "straddle-into-later-unit"
-	c20TopWithin  = "reaches-2^64,start<=capacity"
+	c20TopWithin  = "reaches-2^64,start<=capacity,capacity-in-top-unit"
+	c20TopLater   = "reaches-2^64,start<=capacity,unit-start-above-capacity"
 	c20TopBeyond  = "reaches-2^64,start>capacity"
 )
 
@@ -67,7 +69,12 @@ func c20Class(capacity, unit, addr, n uint64) string {
 	}
 	if n > math.MaxUint64-addr { // addr+n >= 2^64: touches address 2^64-1 (always >= capacity) or wraps
 		if addr <= capacity {
-			return c20TopWithin
+			// base of the unit that holds address 2^64-1
+			topBase := uint64(math.MaxUint64) - uint64(math.MaxUint64)%unit
+			if capacity >= topBase || addr >= topBase {
+				return c20TopWithin // no unit starts above the capacity between addr and 2^64
+			}
+			return c20TopLater
 		}
 		return c20TopBeyond
 	}
@@ -106,7 +113,7 @@ func c20AcceptedSig(kind, class string) string {
 		return c20SigMid
 	case c20AtUnit:
 		return c20SigAtUnit
-	case c20TopWithin, c20TopBeyond:
+	case c20TopWithin, c20TopLater, c20TopBeyond:
 		if kind == "r" {
 			return c20SigReadTop
 		}
@@ -135,7 +142,12 @@ func c20CandidateSigs(kind, class string) []string {
 		if kind == "r" {
 			return []string{c20SigReadTop}
 		}
-		return []string{c20SigWriteTop, c20SigPartial}
+		return []string{c20SigWriteTop}
+	case c20TopLater:
+		if kind == "r" {
+			return []string{c20SigReadTop}
+		}
+		return []string{c20SigPartial}
 	case c20TopBeyond:
 		if kind == "r" {
 			return []string{c20SigReadTop}
@@ -430,9 +442,6 @@ func genC20Unit(rt *rapid.T, max uint64) uint64 {
 	}
 	for u > max {
 		u = u/2 + 1
-		if u == 2 && max == 1 {
-			u = 1
-		}
 	}
 	return u
 }
@@ -560,34 +569,47 @@ func genC20Safe(rt *rapid.T, capacity, unit uint64) (addr, n uint64) {
 	return
 }
 
+const c20MaxOps = 24
+
+// genC20 draws the shape and then the history with rt.Repeat (average 10 ops,
+// at most 24), so that rapid can shrink a failing history by dropping single ops.
 func genC20(rt *rapid.T, s *kit.Session) c20Case {
 	c := c20Case{}
 	c.Capacity, c.Unit = genC20Shape(rt)
-	nops := rapid.IntRange(1, 24).Draw(rt, "nops")
-	for i := 0; i < nops; i++ {
+	one := func(t *rapid.T) {
+		if len(c.Ops) >= c20MaxOps {
+			return
+		}
 		var op c20Op
-		switch k := rapid.IntRange(0, 19).Draw(rt, "kind"); {
+		switch k := rapid.IntRange(0, 19).Draw(t, "kind"); {
 		case k < 2:
 			op.Kind = "c"
 			c.Ops = append(c.Ops, op)
-			continue
+			return
 		case k < 11:
 			op.Kind = "w"
-			op.Seed = rapid.Uint8().Draw(rt, "seed")
+			op.Seed = rapid.Uint8().Draw(t, "seed")
 		default:
 			op.Kind = "r"
 		}
-		op.Addr = genC20Addr(rt, c.Capacity, c.Unit)
-		op.Len = genC20Len(rt, c.Capacity, c.Unit, op.Addr)
+		op.Addr = genC20Addr(t, c.Capacity, c.Unit)
+		if len(c.Ops) > 0 && rapid.IntRange(0, 3).Draw(t, "reuse") == 0 { // revisit an earlier access
+			op.Addr = c.Ops[rapid.IntRange(0, len(c.Ops)-1).Draw(t, "reuseidx")].Addr + uint64(rapid.Int64Range(-2, 2).Draw(t, "reused"))
+		}
+		op.Len = genC20Len(t, c.Capacity, c.Unit, op.Addr)
 		class := c20Class(c.Capacity, c.Unit, op.Addr, op.Len)
 		for _, sig := range c20CandidateSigs(op.Kind, class) {
 			if _, known := s.IsKnown(sig); known {
 				s.Excluded(1)
-				op.Addr, op.Len = genC20Safe(rt, c.Capacity, c.Unit)
+				op.Addr, op.Len = genC20Safe(t, c.Capacity, c.Unit)
 				break
 			}
 		}
 		c.Ops = append(c.Ops, op)
+	}
+	rt.Repeat(map[string]func(*rapid.T){"op": one})
+	if len(c.Ops) == 0 {
+		one(rt)
 	}
 	return c
 }
@@ -621,8 +643,8 @@ func c20ShapeClasses(c c20Case) []string {
 func TestC20Storage(t *testing.T) {
 	s := kit.Begin(t, "C20", "storage",
 		"capacity from {1..16, k*unit+-2 (k<=8), uniform<=64KiB (<=2048 units), <unit, 2^64-1-k (k<=8 or <=2*unit+2), {2^20,2^32,2^40,2^63,3*2^61}+-5}; "+
-			"unit from {1, primes<=4093, 2^0..2^16, 1..300} (<=4096 for capacities >128KiB); 1..24 ops (45% write, 45% read, 10% checkpoint save->load into a rebuilt storage); "+
-			"addresses from {capacity+-3, unit boundary+-2, in range, capacity-k*unit+-2, 2^64-1-k, uniform}; lengths from {0..3, j*unit+-2 (j<=3), to next unit boundary+-1, to capacity+-2, to 2^64 -1..+3}, never above 128KiB+8. "+
+			"unit from {1, primes<=4093, 2^0..2^16, 1..300} (<=4096 for capacities >128KiB); 1..24 ops (rt.Repeat, average 10; 45% write, 45% read, 10% checkpoint save->load into a rebuilt storage); "+
+			"addresses from {capacity+-3, unit boundary+-2, in range, capacity-k*unit+-2, 2^64-1-k, uniform, an earlier op's address+-2}; lengths from {0..3, j*unit+-2 (j<=3), to next unit boundary+-1, to capacity+-2, to 2^64 -1..+3}, never above 128KiB+8. "+
 			"Oracle: byte-array model; in-range access => nil error and exact bytes; access of length>=1 touching an address >= capacity (or reaching 2^64) => error and contents equal to the model "+
 			"(whole contents for capacities <=128KiB, else every range ever written plus 2*unit+2 windows around the access ends, 0 and capacity); contents compared after every op; zero-length accesses: only contents compared. "+
 			"Accesses in an input class with a listed finding are replaced by in-range or start>capacity accesses and counted as excluded. "+
@@ -665,8 +687,71 @@ func TestC20Storage(t *testing.T) {
 	}
 
 	kit.SetChecks(20_000, 200_000)
+	_ = flag.Set("rapid.steps", "10")
 	rapid.Check(t, func(rt *rapid.T) {
 		c := genC20(rt, s)
 		run(rt, c)
 	})
+}
+
+// ------------------- dedicated reproductions of listed findings -------------------
+
+// c20Known runs one fixed case. A listed finding that still reproduces prints
+// KNOWN-FINDING; an unlisted one is a violation; one that no longer fails is
+// reported as gone (and passes: the lead then drops the listing).
+func c20Known(t *testing.T, name, sig string, c c20Case) {
+	s := kit.Begin(t, "C20", "known-"+name, "dedicated deterministic reproduction of the finding with signature "+sig)
+	defer s.End()
+	if kit.ReplayMode() {
+		t.Skip()
+	}
+	got, msg, _ := c20Exec(c)
+	switch got {
+	case sig:
+		s.KnownStillFails(t, c, sig, msg)
+	case "":
+		fmt.Printf("KNOWN-FINDING-GONE: property=C20 sig=%s no longer reproduces on %+v\n", sig, c)
+	default:
+		s.Fail(t, c, got, "%s", msg)
+	}
+}
+
+func TestC20Known_StartAtCapacity(t *testing.T) {
+	c20Known(t, "start-at-capacity", c20SigAtCap,
+		c20Case{Capacity: 1, Unit: 1, Ops: []c20Op{{Kind: "w", Addr: 1, Len: 1}}})
+}
+
+func TestC20Known_StraddleAtUnitBoundary(t *testing.T) {
+	c20Known(t, "straddle-at-unit-boundary", c20SigAtUnit,
+		c20Case{Capacity: 1, Unit: 1, Ops: []c20Op{{Kind: "w", Addr: 0, Len: 2}}})
+}
+
+func TestC20Known_StraddleMidUnit(t *testing.T) {
+	c20Known(t, "straddle-mid-unit", c20SigMid,
+		c20Case{Capacity: 1, Unit: 2, Ops: []c20Op{{Kind: "w", Addr: 0, Len: 2}}})
+}
+
+func TestC20Known_PartialWriteOnError(t *testing.T) {
+	c20Known(t, "partial-write-on-error", c20SigPartial,
+		c20Case{Capacity: 1, Unit: 2, Ops: []c20Op{{Kind: "w", Addr: 0, Len: 3}}})
+}
+
+func TestC20Known_ReadReaches2p64(t *testing.T) {
+	c20Known(t, "read-reaches-2p64", c20SigReadTop,
+		c20Case{Capacity: 1, Unit: 1, Ops: []c20Op{{Kind: "r", Addr: math.MaxUint64, Len: 1}}})
+}
+
+func TestC20Known_ReadWraps(t *testing.T) { // the probe of DESIGN.md: Read(2^64-2, 4)
+	c20Known(t, "read-wraps", c20SigReadTop,
+		c20Case{Capacity: 4096, Unit: 4096, Ops: []c20Op{{Kind: "r", Addr: math.MaxUint64 - 1, Len: 4}}})
+}
+
+func TestC20Known_WriteReaches2p64(t *testing.T) {
+	c20Known(t, "write-reaches-2p64", c20SigWriteTop,
+		c20Case{Capacity: math.MaxUint64, Unit: 1, Ops: []c20Op{{Kind: "w", Addr: math.MaxUint64, Len: 1}}})
+}
+
+func TestC20Known_WriteWrapsToZero(t *testing.T) {
+	c20Known(t, "write-wraps-to-zero", c20SigWriteTop,
+		c20Case{Capacity: math.MaxUint64 - 1, Unit: 16, Ops: []c20Op{{Kind: "w", Addr: math.MaxUint64 - 1, Len: 4}}})
 }
